@@ -9,8 +9,10 @@ import (
 	"fmt"
 	"os"
 	"sort"
+	"strings"
 	"time"
 
+	"github.com/ozontech/seq-db/consts"
 	"github.com/ozontech/seq-db/frac"
 	"github.com/ozontech/seq-db/frac/processor"
 	"github.com/ozontech/seq-db/fracmanager"
@@ -59,12 +61,24 @@ type Obs struct {
 	IDs  [][2]uint64 `json:"ids,omitempty"`
 	Docs []int       `json:"docs,omitempty"` // body numbers; -1 = not found, -2 = bytes that are no stored document
 	Msg  string      `json:"msg,omitempty"`
+	// file / descriptor state of every fraction after the step (only when Input.Opts is set), one number per fraction:
+	// 1 .docs descriptor open, 2 .meta, 4 .sdocs, 8 .index (from /proc/self/fd); 16 .docs exists, 32 .meta, 64 .sdocs,
+	// 128 .index (stat); 256 the installed sealed fraction reads the ACTIVE fraction's descriptor, 512 its own on .sdocs
+	Files []int `json:"files,omitempty"`
+}
+
+// Opts are the non-default fraction options (frac.Config) of a schedule; nil = default configuration, no file
+// observations (the original CSched cases).
+type Opts struct {
+	SkipSortDocs bool `json:"skip_sort_docs"`
+	KeepMetaFile bool `json:"keep_meta_file"`
 }
 
 type Input struct {
 	Bulks   [][][]Doc `json:"bulks"` // per writer: its bulks, sent one after the other
 	Queries []Query   `json:"queries"`
 	Labels  []Label   `json:"labels"`
+	Opts    *Opts     `json:"opts,omitempty"`
 }
 
 type event struct {
@@ -122,6 +136,11 @@ type Exec struct {
 	params  []processor.SearchParams
 	counts  []string
 	asts    []*parser.ASTNode
+	// file layer (Input.Opts != nil): per fraction its list entry, base path, active and sealed objects
+	entries []frac.Fraction
+	bases   []string
+	actives []*frac.Active
+	sealeds []*frac.Sealed
 }
 
 const nReaders = 3
@@ -142,11 +161,17 @@ func NewExec(in *Input) (*Exec, error) {
 		e.ev <- event{hook: name, park: c}
 		<-c
 	})
-	fm, err := fracbuild.NewFM(dir, nil)
+	fm, err := fracbuild.NewFM(dir, func(c *fracmanager.Config) {
+		if in.Opts != nil {
+			c.Fraction.SkipSortDocs = in.Opts.SkipSortDocs
+			c.Fraction.KeepMetaFile = in.Opts.KeepMetaFile
+		}
+	})
 	if err != nil {
 		return nil, err
 	}
 	e.fm = fm
+	e.noteNewFraction()
 	for range in.Bulks {
 		e.ws = append(e.ws, &writer{})
 	}
@@ -269,7 +294,16 @@ func (e *Exec) Enabled(l Label) bool {
 	return false
 }
 
+// Step runs one label and, for schedules with options, attaches the file / descriptor state of every fraction.
 func (e *Exec) Step(l Label) Obs {
+	o := e.step0(l)
+	if e.in.Opts != nil && !e.hang {
+		o.Files = e.fileObs()
+	}
+	return o
+}
+
+func (e *Exec) step0(l Label) Obs {
 	if !e.Enabled(l) {
 		return Obs{K: "disabled"}
 	}
@@ -333,6 +367,7 @@ func (e *Exec) Step(l Label) Obs {
 		g := e.nfr - 1
 		e.seals[g] = &sealer{h: e.fm.VerifC07Rotate()}
 		e.nfr++
+		e.noteNewFraction()
 		return Obs{K: "unit"}
 	case "M":
 		s := e.seals[l.T]
@@ -387,6 +422,15 @@ func (e *Exec) readerWait(r *reader) Obs {
 // stalls INSIDE the merge mutex, the second waits for that mutex, and both answers are those of the two steps
 // executed one after the other - which is what the model computes for the labels [R a; R b].
 func (e *Exec) StepPair(a, b int) (Obs, Obs) {
+	oa, ob := e.stepPair0(a, b)
+	if e.in.Opts != nil && !e.hang { // reader steps do not touch files: both observations carry the same state
+		oa.Files = e.fileObs()
+		ob.Files = oa.Files
+	}
+	return oa, ob
+}
+
+func (e *Exec) stepPair0(a, b int) (Obs, Obs) {
 	ra, rb := e.rs[a], e.rs[b]
 	ok := a != b && ra.inop && rb.inop && !ra.fetch && !rb.fetch && ra.at == 23 && rb.at == 23
 	var active *frac.Active
@@ -394,8 +438,8 @@ func (e *Exec) StepPair(a, b int) (Obs, Obs) {
 		active = fracmanager.VerifC07Active(ra.f)
 	}
 	if active == nil {
-		oa := e.Step(Label{K: "R", T: a})
-		return oa, e.Step(Label{K: "R", T: b})
+		oa := e.step0(Label{K: "R", T: a})
+		return oa, e.step0(Label{K: "R", T: b})
 	}
 	unlock := active.VerifC07LockIDs()
 	short := func() (event, bool) {
@@ -566,4 +610,62 @@ func (e *Exec) Idle() bool {
 		}
 	}
 	return true
+}
+
+// ---------------------------------------------------------------- file / descriptor layer
+
+// noteNewFraction records the list entry, base path and active object of the fraction that has just been created
+// (the last entry of the list).
+func (e *Exec) noteNewFraction() {
+	all := e.fm.GetAllFracs()
+	f := all[len(all)-1]
+	e.entries = append(e.entries, f)
+	e.bases = append(e.bases, f.Info().Path)
+	e.actives = append(e.actives, fracmanager.VerifC07Active(f))
+	e.sealeds = append(e.sealeds, nil)
+}
+
+var fileSuffixes = []string{consts.DocsFileSuffix, consts.MetaFileSuffix, consts.SdocsFileSuffix, consts.IndexFileSuffix}
+
+// fileObs observes the REAL state: which of the fraction's files this process holds a descriptor on
+// (/proc/self/fd), which files exist (stat), and which document descriptor the sealed fraction installed in the
+// proxy reads from.
+func (e *Exec) fileObs() []int {
+	open := map[string]bool{}
+	if ents, err := os.ReadDir("/proc/self/fd"); err == nil {
+		for _, de := range ents {
+			t, err := os.Readlink("/proc/self/fd/" + de.Name())
+			if err != nil {
+				continue
+			}
+			open[strings.TrimSuffix(t, " (deleted)")] = true
+		}
+	}
+	out := make([]int, 0, len(e.bases))
+	for g, base := range e.bases {
+		m := 0
+		for k, suf := range fileSuffixes {
+			if open[base+suf] {
+				m |= 1 << k
+			}
+			if _, err := os.Stat(base + suf); err == nil {
+				m |= 16 << k
+			}
+		}
+		if e.sealeds[g] == nil {
+			e.sealeds[g] = fracmanager.VerifC07Sealed(e.entries[g])
+		}
+		if s := e.sealeds[g]; s != nil {
+			switch src := s.VerifC07DocsSource(e.actives[g]); {
+			case src == "active":
+				m |= 256
+			case strings.HasSuffix(src, consts.SdocsFileSuffix):
+				m |= 512
+			default:
+				m |= 768 // neither the active fraction's descriptor nor the sorted copy
+			}
+		}
+		out = append(out, m)
+	}
+	return out
 }
